@@ -366,7 +366,9 @@ def run_mc(ctx, name, configs, maxops, catlimit, stride):
         if not st['hist']:
             continue
         n += 1
-        if (n + ctx.seed) % stride:
+        # binary operations are rare among the reachable states: always replayed; the rest is sampled
+        rare = st['hist'][-1]['l']['op'] in ('is_equal', 'overlap', 'add')
+        if (n + ctx.seed) % stride and not rare:
             continue
         nrep += 1
         replay(ctx, st['cfg'], st['hist'], (name, n))
@@ -427,7 +429,7 @@ def check(ctx):
                'compression methods are checked as relations: |O psi - result|^2 <= reported eps + 1e-8 (no truncation requested)')
     only = ctx.only
     if not only or 'mc' in only:
-        res = run_mc(ctx, 'MPOAlgebra-depth2', 'ConfigsQuick' if quick else 'ConfigsFull', 2, 0, 5 if quick else 3)
+        res = run_mc(ctx, 'MPOAlgebra-depth2', 'ConfigsQuick' if quick else 'ConfigsFull', 2, 0, 6 if quick else 3)
         runs = [res]
         if not quick:
             runs.append(run_mc(ctx, 'MPOAlgebra-depth3', 'ConfigsQuick', 3, 1, 4))
